@@ -130,7 +130,9 @@ func DefaultTimestampType() *TimestampType {
 }
 
 func NewTimestampType(min time.Time, max time.Time) *TimestampType {
-	return &TimestampType{min, max}
+	// without the monotonic clock readings (time.Now): Equals compares the bounds with time.Equal, which compares two
+	// times that both carry such a reading by those readings alone, while the text and the hash key are the wall clock readings
+	return &TimestampType{min.Round(0), max.Round(0)}
 }
 
 func TimeFromHash(hash *Hash) (time.Time, bool) {
